@@ -93,6 +93,12 @@ def gen_case(seed: int, idx: int) -> zd.ZDir:
         for _b, it in pg.iter_items(p):
             if it.zid is None and it.ldate is not None and it.cont and rng.random() < 0.35:
                 it.words = []
+    if idx % 16 == 9:
+        # one page with 45 notes lacking a ZID, all created 'today': the 32nd+ allocation of a date crosses the
+        # gap between 'Y' and 'a' of the suffix alphabet
+        many = pg.Page(title_words=[pg.W("Page"), pg.W("many")])
+        many.blocks = [pg.Block([pg.Item(kind=rng.choice("-ox"), words=[pg.W(f"n{i}"), pg.W("filler")], uid=f"many{i}") for i in range(45)])]
+        z.pages["many.zo"] = many
     return z
 
 
